@@ -28,6 +28,10 @@ pub mod percent;
 pub mod route;
 pub mod thread;
 
+#[cfg(humphrey_verif)]
+#[allow(missing_docs)]
+pub mod verif;
+
 #[cfg(test)]
 mod tests;
 
